@@ -24,18 +24,18 @@ Record equirks := {
 }.
 
 Definition ign_no_unicode (q : iquirks) : iquirks := with_flag 0 q.
-Definition srp_no_raw_span (q : squirks) : squirks :=
-  Build_squirks (q_py_hash_in_string q) false (q_ts_nonpublic_counted q) (q_ts_accessor_counted q) (q_ts_abstract_skipped q)
-                (q_rs_trait_first_ident q) (q_rs_generic_impl_lost q) (q_rs_name_collision q) (q_rs_block_comment_counted q).
+Definition ign_unicode (q : iquirks) : iquirks := with_on 0 q.
 
-(* 0: the claimed vector; 1: without q_splitlines_unicode; 2: without q_ts_loc_raw_span; 3: without e_bom_kept;
-   4: without the three (what C13 demands) *)
+(* 0: the claimed vector; 1: without q_splitlines_unicode; 2: without e_bom_kept; 3: without both (what C13 demands);
+   4: with e_bom_kept on; 5: with q_splitlines_unicode on (4 and 5 recognise a repaired defect that came back).
+   The TypeScript line-count rule is not a flag any more: Model/Srp.v reads it from the generated layer (ts_loc_mode). *)
 Definition candidates (q : equirks) : list equirks :=
   [ q;
     Build_equirks (ign_no_unicode (e_ign q)) (e_srp q) (e_dry q) (e_bom_kept q);
-    Build_equirks (e_ign q) (srp_no_raw_span (e_srp q)) (e_dry q) (e_bom_kept q);
     Build_equirks (e_ign q) (e_srp q) (e_dry q) false;
-    Build_equirks (ign_no_unicode (e_ign q)) (srp_no_raw_span (e_srp q)) (e_dry q) false ].
+    Build_equirks (ign_no_unicode (e_ign q)) (e_srp q) (e_dry q) false;
+    Build_equirks (e_ign q) (e_srp q) (e_dry q) true;
+    Build_equirks (ign_unicode (e_ign q)) (e_srp q) (e_dry q) (e_bom_kept q) ].
 
 (* the text the rules receive *)
 Definition seen (q : equirks) (ps : list string) : list string := if e_bom_kept q then ps else apply DropBOM ps.
@@ -67,7 +67,7 @@ Definition raw_sline (pfx : string) (s : string) : SrpTypes.line :=
   {| l_kind := if String.eqb t "" then LBlank else if starts_with pfx t then LComment else LCode; l_text := t |}.
 
 Definition mkcls (start len : nat) : cls :=
-  {| c_name := "C"; c_kind := CPlain; c_line := start; c_col := 0; c_len := len; c_members := [] |}.
+  {| c_name := "C"; c_kind := CPlain; c_line := start; c_col := 0; c_deco := 0; c_len := len; c_members := [] |}.
 
 (* kind 0: Python class, 1: TS/JS class, 2: Rust struct / impl node *)
 Definition loc_model (q : equirks) (kind : nat) (ps : list string) (start len : nat) : nat :=
